@@ -102,11 +102,13 @@ pub const BPF_TRACE_PRINTK_IDX: u32 = 6;
 #[cfg(feature = "std")]
 pub fn bpf_trace_printf(unused1: u64, unused2: u64, arg3: u64, arg4: u64, arg5: u64) -> u64 {
     println!("bpf_trace_printf: {arg3:#x}, {arg4:#x}, {arg5:#x}");
-    let size_arg = |x| {
+    // Number of hexadecimal digits, computed on integers (a floating-point logarithm is off by
+    // one just below powers of 16 and for values close to u64::MAX).
+    let size_arg = |x: u64| {
         if x == 0 {
             1
         } else {
-            (x as f64).log(16.0).floor() as u64 + 1
+            (64 - x.leading_zeros() as u64).div_ceil(4)
         }
     };
     "bpf_trace_printf: 0x, 0x, 0x\n".len() as u64 + size_arg(arg3) + size_arg(arg4) + size_arg(arg5)
